@@ -42,6 +42,9 @@ static WAITS: Lazy<DashMap<u64, (usize, Arc<(Mutex<bool>, Condvar)>)>> = Lazy::n
 
 static NO_WAITS: Lazy<DashSet<u64>> = Lazy::new(DashSet::new);
 
+// coroutine-local key under which a worker keeps the id of the task it is in the middle of
+const WORKER_TASK: &str = "open-coroutine-worker-task";
+
 /// The coroutine pool impls.
 #[repr(C)]
 #[derive(Debug)]
@@ -499,9 +502,13 @@ impl<'p> CoroutinePool<'p> {
             }
             if let Some(co) = SchedulableCoroutine::current() {
                 _ = RUNNING_TASKS.insert(task_id, co.id);
+                _ = co.put(WORKER_TASK, task_id);
             }
             let (_, result) = task.run();
             _ = RUNNING_TASKS.remove(&task_id);
+            if let Some(co) = SchedulableCoroutine::current() {
+                _ = co.remove::<u64>(WORKER_TASK);
+            }
             if NO_WAITS.contains(&task_id) {
                 _ = NO_WAITS.remove(&task_id);
                 return;
@@ -516,6 +523,16 @@ impl<'p> CoroutinePool<'p> {
             crate::verif::pause("run.before_notify");
             Self::notify(task_id);
         })
+    }
+
+    /// The worker that was running `task_id` has been dropped by a cancel request.
+    fn settle_cancelled(task_id: u64) {
+        _ = RUNNING_TASKS.remove(&task_id);
+        if NO_WAITS.remove(&task_id).is_some() {
+            return;
+        }
+        _ = RESULTS.insert(task_id, Err("The task was cancelled"));
+        Self::notify(task_id);
     }
 
     fn notify(task_id: u64) {
